@@ -243,6 +243,17 @@ void supla_verif_hook_mqtt_handled(int control_type, long consumed, long result)
   if (fw_hook_mqtt_log) sdk_out("MQH %d %ld %d", control_type, consumed, result == 1 ? 1 : 0);
 }
 
+/* configuration form scanner (hook ce6c071): a recognised field is handed to its assignment */
+int fw_hook_form_log = 0;
+void supla_verif_hook_form_var(int var, const char *buff, int buff_size, int matched) {
+  if (!fw_hook_form_log) return;
+  fprintf(stdout, "FVAR %d ", var);
+  int n = 0;
+  while (n < buff_size && buff[n]) n++;
+  if (n) sdk_out_hex(buff, n); else fputc('-', stdout);
+  fprintf(stdout, " %d %d\n", n < buff_size ? 1 : 0, matched); /* matched: fields counted before this one */
+}
+
 #ifdef MQTT_SUPPORT_ENABLED
 /* ---- MQTT board hooks: print what the command handler is given ---- */
 #include <supla_esp_mqtt.h>
